@@ -319,6 +319,61 @@ func c14(r *rand.Rand, tier string, classFile string, tr *trace.Buf) {
 				s[hintOff+75+i] = uint8(70 - 9*i)
 			}
 		}},
+		// strictly increasing bytes through the whole hint section (index bytes AND count bytes), so that an
+		// ordering check never stops a decoder that trusts an oversized count: first count = 200, 84, 83, 76
+		{"hint-increasing-run-count-200", func(s *[dilithium.CryptoBytes]uint8, pk *[dilithium.CryptoPublicKeyBytes]uint8) {
+			for i := 0; i < 75; i++ {
+				s[hintOff+i] = uint8(i + 1)
+			}
+			for i := 0; i < 8; i++ {
+				s[hintOff+75+i] = uint8(200 + i)
+			}
+		}},
+		{"hint-increasing-run-count-84", func(s *[dilithium.CryptoBytes]uint8, pk *[dilithium.CryptoPublicKeyBytes]uint8) {
+			for i := 0; i < 75; i++ {
+				s[hintOff+i] = uint8(i + 1)
+			}
+			for i := 0; i < 8; i++ {
+				s[hintOff+75+i] = uint8(84 + i)
+			}
+		}},
+		{"hint-increasing-run-count-76", func(s *[dilithium.CryptoBytes]uint8, pk *[dilithium.CryptoPublicKeyBytes]uint8) {
+			for i := 0; i < 75; i++ {
+				s[hintOff+i] = uint8(i)
+			}
+			for i := 0; i < 8; i++ {
+				s[hintOff+75+i] = uint8(76 + i)
+			}
+		}},
+		{"hint-late-row-oversized", func(s *[dilithium.CryptoBytes]uint8, pk *[dilithium.CryptoPublicKeyBytes]uint8) {
+			// rows 0..5 empty, row 6 claims 255 entries over an increasing run
+			for i := 0; i < 75; i++ {
+				s[hintOff+i] = uint8(i + 2)
+			}
+			for i := 0; i < 6; i++ {
+				s[hintOff+75+i] = 0
+			}
+			s[hintOff+75+6] = 255
+			s[hintOff+75+7] = 255
+			s[hintOff+75] = 0
+			// make positions 75..82 increasing too where the counts allow: bytes 75..80 are 0 (counts), so the run ends there
+		}},
+		{"hint-late-row-oversized-run", func(s *[dilithium.CryptoBytes]uint8, pk *[dilithium.CryptoPublicKeyBytes]uint8) {
+			// row 0 takes 0 entries... every count byte equal to 250: count[0] = 250 over a fully increasing section
+			for i := 0; i < 83; i++ {
+				s[hintOff+i] = uint8(100 + i)
+			}
+			s[hintOff+75] = 250
+			for i := 1; i < 8; i++ {
+				s[hintOff+75+i] = uint8(250 + i - 1)
+				if 250+i-1 > 255 {
+					s[hintOff+75+i] = 255
+				}
+			}
+			for i := 0; i < 75; i++ {
+				s[hintOff+i] = uint8(i * 3)
+			}
+		}},
 		{"z-all-ones", func(s *[dilithium.CryptoBytes]uint8, pk *[dilithium.CryptoPublicKeyBytes]uint8) {
 			for i := 32; i < hintOff; i++ {
 				s[i] = 0xff
